@@ -66,13 +66,13 @@ Definition kstep (ts : Z) (c : kcmd) (m : kstore) : kstore * reply :=
                else (aput bytes_eqb k (old ++ v) m, RInt (blen old + blen v))
            end
   | KCsetrange k off v =>
-      match v with
+      if (off <? 0) || (max_value_size <? off) then (m, RErr)        (* fix 50b937d: no slice panic *)
+      else match v with
       | [] => if negb (key_ok k) then (m, RErr)
               else (m, RInt (match kget k m with Some b => blen b | None => 0 end))   (* fix 634fbd2 *)
       | _ =>
         if max_value_size <? blen v + off then (m, RErr)
         else if negb (key_ok k) then (m, RErr)
-        else if off <? 0 then (m, RFault)          (* Go: slice bounds out of range (a panic); not generated *)
         else let nv := set_range (match kget k m with Some b => b | None => [] end) (Z.to_nat off) v in
              (aput bytes_eqb k nv m, RInt (blen nv))
       end
